@@ -118,6 +118,45 @@ func prop(t schema.Type, def *string) *schema.PropertySchema {
 	return schema.NewPropertySchema(t, nil, false, nil, nil, nil, def, nil)
 }
 
+// enum values with display names; variant "renamed": the second value is displayed under another name,
+// "unnamed": under none, "extra": a value the others lack
+func enumNames(variant string) []string {
+	names := []string{"Small", "Medium", "Large", "Extra large"}
+	if variant == "renamed" {
+		names[1] = "Mid"
+	}
+	return names
+}
+
+func enumDisp(variant string, i int) *schema.DisplayValue {
+	if variant == "unnamed" && i == 1 {
+		return schema.NewDisplayValue(nil, nil, nil)
+	}
+	return disp(enumNames(variant)[i])
+}
+
+func strEnum(variant string) *schema.StringEnumSchema {
+	vals := map[string]*schema.DisplayValue{}
+	for i, k := range []string{"a", "b", "c", "d"} {
+		vals[k] = enumDisp(variant, i)
+	}
+	if variant == "extra" {
+		vals = map[string]*schema.DisplayValue{"a": enumDisp("", 0), "e": disp("Else")}
+	}
+	return schema.NewStringEnumSchema(vals)
+}
+
+func intEnum(variant string) *schema.IntEnumSchema {
+	vals := map[int64]*schema.DisplayValue{}
+	for i := 0; i < 4; i++ {
+		vals[int64(i+1)] = enumDisp(variant, i)
+	}
+	if variant == "extra" {
+		vals = map[int64]*schema.DisplayValue{1: enumDisp("", 0), 5: disp("Else")}
+	}
+	return schema.NewIntEnumSchema(vals, nil)
+}
+
 // enum values carry display names: values without one cannot be described (C09's business)
 func disp(name string) *schema.DisplayValue {
 	return schema.NewDisplayValue(schema.PointerTo(name), nil, nil)
@@ -157,37 +196,39 @@ type kindInfo struct {
 
 // concrete kinds and the model kind each of them instantiates
 var ckinds = map[string]kindInfo{
-	"int_bytes":     {"units", []string{"global", "rebuilt"}},
-	"int_nanos":     {"units", []string{"global", "rebuilt"}},
-	"int_seconds":   {"units", []string{"global", "rebuilt"}},
-	"float_seconds": {"units", []string{"global", "rebuilt"}},
-	"float_bytes":   {"units", []string{"global", "rebuilt"}},
-	"int_custom":    {"units", []string{"fresh", "rebuilt"}},
-	"float_custom":  {"units", []string{"fresh", "rebuilt"}},
-	"int_custom2":   {"units", []string{"fresh", "rebuilt"}},
-	"int_chars":     {"units0", []string{"global", "rebuilt"}},
-	"int_pct":       {"units0", []string{"global", "rebuilt"}},
-	"float_pct":     {"units0", []string{"global", "rebuilt"}},
-	"int_custom0":   {"units0", []string{"fresh", "rebuilt"}},
-	"objmap":        {"objmap", []string{"fresh", "rebuilt"}},
-	"plugin_input":  {"objmap", []string{"rebuilt"}}, // step input of a schema returned by UnserializeSchema
-	"objstruct":     {"objstruct", []string{"fresh", "rebuilt"}},
-	"objdep":        {"objdep", []string{"fresh", "rebuilt"}},
-	"objnest":       {"objnest", []string{"fresh", "rebuilt"}},
-	"chain":         {"chain", []string{"fresh", "rebuilt"}},
-	"disabled":      {"disabled", []string{"fresh", "rebuilt"}},
-	"objreq":        {"objreq", []string{"fresh", "rebuilt"}},
-	"any_top":       {"anylist", []string{"fresh", "rebuilt"}},
-	"any_prop":      {"anylist", []string{"fresh", "rebuilt"}},
-	"compat2":       {"compat2", []string{"fresh", "rebuilt"}},
-	"mapcoll":       {"mapcoll", []string{"fresh", "rebuilt"}},
-	"anycoll":       {"mapcoll", []string{"fresh", "rebuilt"}},
-	"oneof_map":     {"oneof", []string{"fresh", "rebuilt"}},
-	"oneof_struct":  {"oneof", []string{"fresh", "rebuilt"}},
-	"enum_str":      {"enum", []string{"fresh", "rebuilt"}},
-	"enum_int":      {"enum", []string{"fresh", "rebuilt"}},
-	"steps":         {"steps", []string{"fresh"}},
-	"meta":          {"meta", []string{"fresh"}},
+	"int_bytes":      {"units", []string{"global", "rebuilt"}},
+	"int_nanos":      {"units", []string{"global", "rebuilt"}},
+	"int_seconds":    {"units", []string{"global", "rebuilt"}},
+	"float_seconds":  {"units", []string{"global", "rebuilt"}},
+	"float_bytes":    {"units", []string{"global", "rebuilt"}},
+	"int_custom":     {"units", []string{"fresh", "rebuilt"}},
+	"float_custom":   {"units", []string{"fresh", "rebuilt"}},
+	"int_custom2":    {"units", []string{"fresh", "rebuilt"}},
+	"int_chars":      {"units0", []string{"global", "rebuilt"}},
+	"int_pct":        {"units0", []string{"global", "rebuilt"}},
+	"float_pct":      {"units0", []string{"global", "rebuilt"}},
+	"int_custom0":    {"units0", []string{"fresh", "rebuilt"}},
+	"objmap":         {"objmap", []string{"fresh", "rebuilt", "derived"}},
+	"plugin_input":   {"objmap", []string{"rebuilt"}}, // step input of a schema returned by UnserializeSchema
+	"objstruct":      {"objstruct", []string{"fresh", "rebuilt"}},
+	"objdep":         {"objdep", []string{"fresh", "rebuilt"}},
+	"objnest":        {"objnest", []string{"fresh", "rebuilt"}},
+	"chain":          {"chain", []string{"fresh", "rebuilt"}},
+	"disabled":       {"disabled", []string{"fresh", "rebuilt"}},
+	"objreq":         {"objreq", []string{"fresh", "rebuilt"}},
+	"any_top":        {"anylist", []string{"fresh", "rebuilt"}},
+	"any_prop":       {"anylist", []string{"fresh", "rebuilt"}},
+	"compat2":        {"compat2", []string{"fresh", "rebuilt"}},
+	"mapcoll":        {"mapcoll", []string{"fresh", "rebuilt"}},
+	"mapcoll_units":  {"mapcoll", []string{"fresh", "rebuilt"}},
+	"mapcoll_strkey": {"mapcoll", []string{"fresh", "rebuilt"}},
+	"anycoll":        {"mapcoll", []string{"fresh", "rebuilt"}},
+	"oneof_map":      {"oneof", []string{"fresh", "rebuilt"}},
+	"oneof_struct":   {"oneof", []string{"fresh", "rebuilt"}},
+	"enum_str":       {"enum", []string{"fresh", "rebuilt"}},
+	"enum_int":       {"enum", []string{"fresh", "rebuilt"}},
+	"steps":          {"steps", []string{"fresh", "derived"}},
+	"meta":           {"meta", []string{"fresh"}},
 }
 
 func unitsFor(ckind string) (*schema.UnitsDefinition, bool) {
@@ -327,9 +368,15 @@ func buildScope(ckind string) (*schema.ScopeSchema, error) {
 			"a": schema.NewRefSchema("A", nil), "b": schema.NewRefSchema("B", nil),
 		}, discField, false), a, b), nil
 	case "enum_str":
-		return wrap(schema.NewStringEnumSchema(map[string]*schema.DisplayValue{"a": disp("A"), "b": disp("B")})), nil
+		return wrap(strEnum("")), nil
 	case "enum_int":
-		return wrap(schema.NewIntEnumSchema(map[int64]*schema.DisplayValue{1: disp("A"), 2: disp("B")}, nil)), nil
+		return wrap(intEnum("")), nil
+	case "mapcoll_units":
+		// integer keys with units: "1m" and "60s" denote the same key
+		return wrap(schema.NewMapSchema(schema.NewIntSchema(nil, nil, schema.UnitDurationSeconds), schema.NewStringSchema(nil, nil, nil), nil, nil)), nil
+	case "mapcoll_strkey":
+		// string keys: numbers are rendered as text, so 1.0000001 and 1.0000002 denote the same key
+		return wrap(schema.NewMapSchema(schema.NewStringSchema(nil, nil, nil), schema.NewStringSchema(nil, nil, nil), nil, nil)), nil
 	}
 	if u, isF := unitsFor(ckind); u != nil {
 		// property "v": the schema itself; property "l": a list of it (the same unit definition)
@@ -426,6 +473,10 @@ func build(ckind, origin string) (*instance, error) {
 	if err != nil {
 		return nil, err
 	}
+	if origin == "derived" {
+		// a scope made of another scope's parts: never linked (ApplySelf) itself
+		s = schema.NewScopeSchemaFromScope(s)
+	}
 	if origin == "rebuilt" {
 		s2, unlinked, err := rebuild(s)
 		if err != nil {
@@ -510,12 +561,19 @@ func buildSteps(in *instance) {
 	outScope := schema.NewScopeSchema(schema.NewStructMappedObjectSchema[stepOut]("out", map[string]*schema.PropertySchema{
 		"id": prop(schema.NewIntSchema(nil, nil, nil), nil),
 	}))
-	sig := schema.NewCallableSignal[*stepData, stepIn]("sig", inScope(), nil,
-		func(ctx context.Context, d *stepData, i stepIn) {
-			if d != nil {
-				note(ctx.Value(runKeyT{}).(string), d.id)
-			}
-		})
+	sigHandler := func(ctx context.Context, d *stepData, i stepIn) {
+		if d != nil {
+			note(ctx.Value(runKeyT{}).(string), d.id)
+		}
+	}
+	var sig schema.CallableSignal
+	if in.origin == "derived" {
+		// the construction route of plugins that declare their signals as schemas: the data scope of the callable
+		// signal is made by NewScopeSchemaFromScope and never linked itself
+		sig = schema.NewCallableSignalFromSchema[*stepData, stepIn](schema.NewSignalSchema("sig", inScope(), nil), sigHandler)
+	} else {
+		sig = schema.NewCallableSignal[*stepData, stepIn]("sig", inScope(), nil, sigHandler)
+	}
 	step := schema.NewCallableStepWithSignals[*stepData, stepIn](
 		"s", inScope(),
 		map[string]*schema.StepOutputSchema{"ok": schema.NewStepOutputSchema(outScope, nil, false)},
